@@ -240,7 +240,8 @@ pub trait Farm:
         self.validate_contract_state(storage_cache.contract_state, &storage_cache.farm_token_id);
         NoMintWrapper::<Self>::generate_aggregated_rewards(self, &mut storage_cache);
 
-        let boosted_rewards = self.claim_only_boosted_payment(user);
+        let boosted_rewards = Wrapper::<Self>::calculate_boosted_rewards(self, user);
+        storage_cache.reward_reserve -= &boosted_rewards;
 
         self.set_farm_supply_for_current_week(&storage_cache.farm_token_supply);
 
